@@ -136,7 +136,7 @@ def traceFrom (fo : Option FixOnly) (post : List Tok → List Tok) : List (Optio
   | none :: l, g => traceFrom fo post l (post g)
   | some r :: l, g =>
     if r.1.sevError && r.1.fixable then
-      ⟨r, g, filterFixOnly fo r.1.id (r.2.analyze g)⟩ :: traceFrom fo post l (ruleFix r.1 r.2 fo g).1
+      ⟨r, g, filterFixOnly fo r.1.id (sortByStart (r.2.analyze g))⟩ :: traceFrom fo post l (ruleFix r.1 r.2 fo g).1
     else traceFrom fo post l g
 
 /-- the `Rule.fix` calls of `rule_list.fix(iFixPhase, lSkipPhase, dFixOnly)` that got past `if self.fixable` -/
